@@ -215,6 +215,8 @@ def judge(part, model, db, sig, snippet, expr, x, q, xvals, kpy, ktol, result):
 
 def _task(task):
     kind, payload = task
+    if kind == "pairs":
+        return _pairs_task(payload)
     part = Part()
     with worlds.world("posc") as db:
         model = Model(db)
@@ -238,7 +240,7 @@ def _task(task):
                                     x = build(cls, ckind, q, vals, n)
                                     xvals = [vals[0]] if cls == "Scalar" else list(vals[:n])
                                     sig = "C09:%s[%s,len %d]:%s:%s:k=%s:values %d" % (cls, ckind, n, qname, expr, kname, vi)
-                                    snippet = (
+                                    snippet = lambda cls=cls, ckind=ckind, qexpr=qexpr, vals=vals, n=n, kname=kname, expr=expr: (  # noqa: E731
                                         "import numpy as np\nfrom mc import worlds\nfrom barril.units import *\nfrom barril.units import GetUnknownQuantity, ObtainQuantity, Quantity\n"
                                         "with worlds.world('posc'):\n    x = %s\n    k = %s\n    r = %s\n    print(type(r).__name__, repr(r))\n    assert type(r) is type(x), 'unit lost'\n"
                                         % (build_expr(cls, ckind, qexpr, vals, n), _kexpr(kname, n), expr)
@@ -293,6 +295,57 @@ def _task(task):
     return part
 
 
+MINI_POOL = [
+    ("simple m/length", "ObtainQuantity('m', 'length')", lambda: ObtainQuantity("m", "length")),
+    ("simple cm/length", "ObtainQuantity('cm', 'length')", lambda: ObtainQuantity("cm", "length")),
+    ("affine degC", "ObtainQuantity('degC', 'temperature')", lambda: ObtainQuantity("degC", "temperature")),
+    ("derived m/s", "(Scalar(1.0, 'm') / Scalar(1.0, 's')).GetQuantity()", lambda: (Scalar(1.0, "m") / Scalar(1.0, "s")).GetQuantity()),
+    ("derived cm2", "(Scalar(1.0, 'cm') * Scalar(1.0, 'cm')).GetQuantity()", lambda: (Scalar(1.0, "cm") * Scalar(1.0, "cm")).GetQuantity()),
+    ("derived 1/s", "(1.0 / Scalar(1.0, 's')).GetQuantity()", lambda: (1.0 / Scalar(1.0, "s")).GetQuantity()),
+    ("empty", "Quantity.CreateEmpty()", lambda: Quantity.CreateEmpty()),
+]
+STEPS = [(cls, ckind, e) for cls, ckind in (("Scalar", None), ("Array", "list"), ("Array", "ndarray"), ("FixedArray", "tuple")) for e in EXPRS]
+
+
+def _pairs_task(task):
+    """Depth-2 histories on a FRESH database per history (nothing survives from an earlier history, not
+    even state the library does not reset itself): every ordered pair of (shape, expression) steps on
+    one quantity - an answer must not depend on which operation came first."""
+    first_steps = task
+    part = Part()
+    kname, kf, kpy, ktol = SCALAR_K[2]
+    for qname, qexpr, qf in MINI_POOL:
+        for s1 in first_steps:
+            for s2 in STEPS:
+                db = worlds.mini("base")
+                with worlds.installed(db):
+                    model = Model(db)
+                    q = qf()
+                    for pos, (cls, ckind, expr) in enumerate((s1, s2)):
+                        n = 1 if cls == "Scalar" else 2
+                        x = build(cls, ckind, q, VALUES[0], n)
+                        xvals = list(VALUES[0][:n])
+                        part.count("evaluations")
+                        sig = "C09:pair:%s: %s[%s] %s then %s[%s] %s (k=2.5): step %d" % (qname, s1[0], s1[1], s1[2], s2[0], s2[1], s2[2], pos + 1)
+                        snippet = lambda s1=s1, s2=s2, qexpr=qexpr: (  # noqa: E731
+                            "import numpy as np\nfrom mc import worlds\nfrom mc.ref.dims import Model\nfrom barril.units import *\nfrom barril.units import GetUnknownQuantity, ObtainQuantity, Quantity\n"
+                            "db = worlds.mini('base')\nwith worlds.installed(db):\n    k = 2.5\n    x = %s\n    r1 = %s\n    x = %s\n    r2 = %s\n    print(repr(r1), repr(r2))\n"
+                            "    m = Model(db)\n    assert m.dimension(r2.GetQuantity()) == %s\n"
+                            % (build_expr(s1[0], s1[1], qexpr, VALUES[0], 1 if s1[0] == "Scalar" else 2), s1[2], build_expr(s2[0], s2[1], qexpr, VALUES[0], 1 if s2[0] == "Scalar" else 2), s2[2],
+                               "m.dimension(x.GetQuantity())" if s2[2] in KEEP else "{t: -e for t, e in m.dimension(x.GetQuantity()).items()}")
+                        )
+                        try:
+                            r = _apply(expr, x, kf())
+                        except Exception as e:
+                            part.violation(sig + ":raised", {"error": repr(e)}, snippet)
+                            break
+                        out = judge(part, model, db, sig, snippet, expr, x, q, xvals, kpy, ktol, r)
+                        if out[0] != "ok":
+                            break
+                part.count("expression_pairs")
+    return part
+
+
 def _kexpr(kname, n):
     if kname.startswith("ndarray 0-d float"):
         return "np.array(2.5)"
@@ -312,6 +365,7 @@ def run(ctx):
     depth = 3 if ctx.thorough else 2
     n = 32 if ctx.thorough else 16
     tasks = [("pool", (depth, i, n)) for i in range(n)]
+    tasks += [("pairs", STEPS[i::8]) for i in range(8)]
     if ctx.thorough:
         with worlds.world("posc") as db:
             qts = sorted(db.GetQuantityTypes(), key=lambda q: -len(db.GetUnits(q)))
@@ -322,9 +376,9 @@ def run(ctx):
     ctx.rule = (
         "complete product: quantity pool (simple, second category, affine, empty, unknown + every ordered composing map of the depth-%d derived-quantity graph) x 7 value-object shapes "
         "(Scalar, Array/FixedArray over list/tuple/ndarray, lengths 0,1,3 / 2,3) x 22 scalar numbers (13 python/numpy types; values incl. 0, -0.0, +-1) (+4 ndarray kinds for containers) x 10 expressions x 2 value assignments%s; "
-        "non-trivial/distinct = distinct quantities in the pool; outcomes = distinct verdict keys" % (depth, "; plus every unit of the table x 4 shapes x 4 k x 6 expressions" if ctx.thorough else "")
+        "+ every ordered pair of 40 (shape, expression) steps on 7 quantities, each pair on a FRESH hand-registered database (depth-2 histories); non-trivial/distinct = distinct quantities in the pool; outcomes = distinct verdict keys" % (depth, "; plus every unit of the table x 4 shapes x 4 k x 6 expressions" if ctx.thorough else "")
     )
-    ctx.coverage_extra = {"k_type_shape_combinations": len(ctx.part.sets.get("ktypes", ())), "table_units": c.get("table_units", 0), "zero_division_skipped": c.get("zero_division", 0)}
+    ctx.coverage_extra = {"k_type_shape_combinations": len(ctx.part.sets.get("ktypes", ())), "table_units": c.get("table_units", 0), "zero_division_skipped": c.get("zero_division", 0), "expression_pairs": c.get("expression_pairs", 0)}
     ctx.assumptions = [
         "Scalar with an ndarray operand is outside the alphabet (the code has no branch for it; the property's ndarray clause concerns containers)",
         "k is compared as an exact python number; float32/float16 operands are compared at their own precision",
